@@ -6,6 +6,7 @@
 
 pub mod core;
 pub mod frontends;
+pub mod fuzzing;
 pub mod generators;
 pub mod lsp;
 pub mod oracle;
